@@ -22,9 +22,11 @@ EXPLANATION = (
     "readings. Assertions: prof.results has exactly one entry per task the scheduler finished (all executed tasks on "
     "success; exactly the tasks completed before the failure otherwise), keys distinct, each entry's task is the graph node, "
     "start_time <= end_time for every admissible clock. A second scheduler call under the same profiler appends rather "
-    "than loses entries.")
+    "than loses entries; a second computation on other keys after a (possibly failing) first one, under the same activation, "
+    "is still observed and adds exactly its own entries (no stale or duplicated ones). 'The scheduler finished this task' is recorded "
+    "independently of the callback machinery by wrapping dask.local.finish_task.")
 ASSUMPTIONS = SC.SCHED_ASSUMPTIONS + ["default_timer is replaced by a stub whose readings are symbolic, non-decreasing integers"]
-STUBS = SC.SCHED_STUBS + ["dask.diagnostics.profile.default_timer -> symbolic non-decreasing clock"]
+STUBS = SC.SCHED_STUBS + ["dask.local.finish_task wrapped by a logger (the real function still runs)", "dask.diagnostics.profile.default_timer -> symbolic non-decreasing clock"]
 ENUM = ["graphs, failing task, chunksize, completion picks"]
 OUTSIDE = ["Cache callback (needs the `cachey` package, absent from the sandbox)", "ProgressBar output, ResourceProfiler/CacheProfiler (threads, psutil)",
            "visualisation"]
@@ -39,7 +41,7 @@ def functions():
                                    Profiler._finish, Profiler.clear]
 
 
-def mk(N, kinds, chunks=(-1, 1, 2), twice=False):
+def mk(N, kinds, chunks=(-1, 1, 2), twice=False, then_other=False):
     def setup(e):
         spec = SC.gen_graph(e, N, kinds, sym_leaf=False)
         want, shape = SC.gen_request(e, N, allow_empty=False, shapes=(0, 1, 2))
@@ -69,10 +71,20 @@ def mk(N, kinds, chunks=(-1, 1, 2), twice=False):
         raised = None
         saved = Callback.active
         Callback.active = set()
+        import dask.local as L
+        from dask._task_spec import Task, TaskRef
+        real_finish = L.finish_task
+
+        def finish_task(dsk_, key, *a, **k):
+            # independent record of "the scheduler finished this task" (the real finish_task still runs)
+            log.append(("done", key))
+            return real_finish(dsk_, key, *a, **k)
+
+        other = {"zz": Task("zz", SC.F(98, log)), "zy": Task("zy", SC.F(99, log), TaskRef("zz"))}
         try:
-            with patched((P, "default_timer", clock)):
+            with patched((P, "default_timer", clock), (L, "finish_task", finish_task)):
                 with Profiler() as prof:
-                    with Callback(posttask=lambda key, res, d, st, wid: log.append(("done", key))):
+                    with Callback(posttask=lambda key, res, d, st, wid: log.append(("cb_done", key))):
                         for rep in range(2 if twice else 1):
                             try:
                                 SC.run_scheduler(e, dsk, keys, nw, cs, log, callbacks=None,
@@ -83,9 +95,16 @@ def mk(N, kinds, chunks=(-1, 1, 2), twice=False):
                                 if type(ex).__module__.startswith("symx"):
                                     raise
                                 raised = ex
+                        if then_other:
+                            # a later computation under the same activation, on keys the first one never touched
+                            SC.run_scheduler(e, other, "zy", nw, cs, log, callbacks=None, use_loads=False, tag="o_")
         finally:
             Callback.active = saved
         done = [ev[1] for ev in log if ev[0] == "done"]
+        cb_done = [ev[1] for ev in log if ev[0] == "cb_done"]
+        e.check(sorted(map(str, cb_done)) == sorted(map(str, done)), f"posttask callbacks {cb_done} != tasks the scheduler finished {done}")
+        if then_other:
+            e.check(done[-2:] == ["zz", "zy"], "the second computation did not run")
         res = prof.results
         e.check(sorted(map(str, (r.key for r in res))) == sorted(map(str, done)),
                 f"profiler entries {[r.key for r in res]} != tasks the scheduler finished {done}")
@@ -93,19 +112,21 @@ def mk(N, kinds, chunks=(-1, 1, 2), twice=False):
             e.check(len({r.key for r in res}) == len(res), "duplicate profiler entries")
         needed = SC.needed_set(spec, want)
         if not any(j in needed for j in fails):
-            exp = sorted(str(SC.key_of(j)) for j in needed if spec[j]["kind"] != "data") * (2 if twice else 1)
+            exp = sorted(str(SC.key_of(j)) for j in needed if spec[j]["kind"] != "data") * (2 if twice else 1) + (["zy", "zz"] if then_other else [])
             e.check(sorted(map(str, (r.key for r in res))) == sorted(exp), "on success every executed task must have an entry")
         for r in res:
             e.check(lambda: r.start_time <= r.end_time, f"start_time > end_time for {r.key!r}")
-            e.check(prof._dsk[r.key] is r.task or r.task == prof._dsk[r.key], "entry carries the wrong task")
+            e.check(r.key in prof._dsk and (prof._dsk[r.key] is r.task or r.task == prof._dsk[r.key]), "entry carries the wrong task")
         e.check(lambda: prof.start_time <= prof.end_time, "profiler start_time > end_time")
         return sorted(str(r.key) for r in res)
 
-    return Obligation(f"profiler[N={N},kinds={'+'.join(kinds)}{',twice' if twice else ''}]", setup, run)
+    return Obligation(f"profiler[N={N},kinds={'+'.join(kinds)}{',twice' if twice else ''}{',then_other' if then_other else ''}]", setup, run)
 
 
 def obligations(tier):
     if tier == "quick":
-        return [mk(2, ("task", "data")), mk(3, ("task", "data"), chunks=(-1, 2)), mk(2, ("task",), twice=True, chunks=(1,))]
+        return [mk(2, ("task", "data")), mk(3, ("task", "data"), chunks=(-1, 2)), mk(2, ("task",), twice=True, chunks=(1,)),
+                mk(2, ("task", "data"), then_other=True, chunks=(1, -1))]
     return [mk(2, SC.ALL_KINDS, chunks=SC.CHUNKSIZES), mk(3, ("task", "data", "alias", "legacylist"), chunks=SC.CHUNKSIZES),
-            mk(4, ("task",), chunks=(-1, 2)), mk(3, ("task", "data"), twice=True, chunks=(1, -1))]
+            mk(4, ("task",), chunks=(-1, 2)), mk(3, ("task", "data"), twice=True, chunks=(1, -1)),
+            mk(3, ("task", "data"), then_other=True, chunks=(1, -1, 2))]
